@@ -115,6 +115,16 @@ CLAIMED = {
         "property-based testing (Hypothesis) with single-fault variants and an exact tally oracle",
         "3/C05",
     ),
+    "C06": (
+        "On generated untied profiles (partial ballots, rational weights, zero-vote candidates, planted cycles in "
+        "and below the top tier, pairwise ties) the pairwise dictionary is compared with margins computed from the "
+        "definition, dominating_tiers() with a brute-force enumeration of all dominating subsets (no graph "
+        "library), the Condorcet queries with 'beats all others', DominatingSets with tier 0 / ordered lower tiers, "
+        "and CondoBorda with whole tiers in order plus Borda order inside the straddling tier.",
+        "n <= 6 because ballot filling and the subset enumeration are factorial/exponential; Borda oracle from C04.",
+        "property-based testing (Hypothesis) against definition-level margins and brute-force Smith tiers",
+        "3/C06",
+    ),
 }
 
 PENDING_REASON = "check not built yet in this session; the design (DESIGN.md section 3) claims it and it will be registered once it is quiet on the unchanged tree and catches its mutants"
